@@ -47,11 +47,11 @@ EDITS = {
         ("rb04", RT + "vm/ringbuffer.rs", "let max_delay = (len - 1) as f64;", "let max_delay = len as f64;", "kani", "runtime"),
         ("vm01", RT + "vm.rs", "let head = self.rawdata.as_ptr().add(self.pos);", "let head = self.rawdata.as_ptr().add(self.pos + 1);", "kani", "runtime"),
         ("vm02", RT + "vm.rs", "self.pos = (self.pos as u64 - (std::convert::Into::<u64>::into(offset))) as usize;", "self.pos = (self.pos as u64 - (std::convert::Into::<u64>::into(offset)) + 1) as usize;", "kani", "runtime"),
-        ("wa01", RT + "wasm.rs", "current.data[pos + 1] = (write_idx + 1) % len;", "current.data[pos + 1] = write_idx + 1;", "kani", "runtime"),
-        ("wa02", RT + "wasm.rs", "let write_idx = current.data[pos + 1] % len;", "let write_idx = current.data[pos] % len;", "kani", "runtime"),
-        ("wa03", RT + "wasm.rs", "    current.data[pos] = input.to_bits();\n\n    old_value", "    current.data[pos] = old_bits;\n\n    old_value", "kani", "runtime"),
+        ("wa01", RT + "wasm.rs", "current.data[pos + 1] = (write_idx + 1) % len;", "current.data[pos + 1] = write_idx + 1;", "both", "wasm_state"),
+        ("wa02", RT + "wasm.rs", "let write_idx = current.data[pos + 1] % len;", "let write_idx = current.data[pos] % len;", "both", "wasm_state"),
+        ("wa03", RT + "wasm.rs", "    current.data[pos] = input.to_bits();\n\n    old_value", "    current.data[pos] = old_bits;\n\n    old_value", "both", "wasm_state"),
         ("wa04", RT + "wasm.rs", "        current.pos = current.pos.saturating_sub(delta);\n    } else {\n        let delta_u64 = offset.unsigned_abs();\n        let delta = usize::try_from(delta_u64).unwrap_or(usize::MAX);\n        current.pos = current.pos.saturating_add(delta);",
-         "        current.pos = current.pos.saturating_sub(delta + 1);\n    } else {\n        let delta_u64 = offset.unsigned_abs();\n        let delta = usize::try_from(delta_u64).unwrap_or(usize::MAX);\n        current.pos = current.pos.saturating_add(delta);", "kani", "runtime"),
+         "        current.pos = current.pos.saturating_sub(delta + 1);\n    } else {\n        let delta_u64 = offset.unsigned_abs();\n        let delta = usize::try_from(delta_u64).unwrap_or(usize::MAX);\n        current.pos = current.pos.saturating_add(delta);", "both", "wasm_state"),
         ("am01", RT + "vm.rs", "                    let ptr = self.get_current_state().get_state_mut(1);\n                    ptr[0] = s;", "                    let ptr = self.get_current_state().get_state_mut(1);\n                    ptr[0] = v;", "kani", "runtime"),
         ("am02", RT + "vm.rs", "                    self.set_stack_range(dst as i64, v);\n                }\n                Instruction::SetState", "                    self.set_stack_range(dst as i64 + 1, v);\n                }\n                Instruction::SetState", "kani", "runtime"),
         ("am03", RT + "vm.rs", "                    let res = ringbuf.process(i, t);", "                    let res = ringbuf.process(t, i);", "kani", "runtime"),
